@@ -22,7 +22,7 @@ RULE = (
     'unrevoked activation is scheduled (kernel monitor), the exception leaving run() is the '
     'identical object first raised out of a root, a returned value is reported as an error, '
     'time.now raises before / between / after runs and reads the enclosing simulation\'s time '
-    'after a nested run, the enclosing simulation\'s log equals the log of the same program '
+    'after a nested run and raises in threads started by an activity (plain, pool, running in a copy of the activity\'s contextvars context), the enclosing simulation\'s log equals the log of the same program '
     'without the nested run. family B (threads): 2-16 threads each running 10-60 generated '
     'programs concurrently with sys.setswitchinterval(1e-6) (thorough: plus sys.monitoring '
     'LINE-event yield injection inside usim/_core) while a prober thread reads time.now; every '
@@ -40,7 +40,7 @@ ASSUMPTIONS = [
     'thread batches use programs whose activities all end (no left-over suspended coroutines '
     'whose finalisation by the garbage collector could run in another thread)',
 ]
-REQUIRED_STATS = ['histories', 'runs_in_histories', 'thread_batches', 'thread_switches_observed',
+REQUIRED_STATS = ['histories', 'runs_in_histories', 'foreign_thread_reads', 'thread_batches', 'thread_switches_observed',
                   'prober_reads']
 
 
@@ -65,6 +65,34 @@ class Boom(Exception):
     pass
 
 
+def read_from_foreign_threads():
+    """[(kind of thread, what reading time.now gave there)] - called from inside an activity"""
+    import concurrent.futures
+    import contextvars
+    results = []
+
+    def read(how):
+        try:
+            results.append((how, time.now))
+        except RuntimeError:
+            results.append((how, 'RuntimeError'))
+        except BaseException as exc:  # noqa: B902
+            results.append((how, 'raised %r' % (exc,)))
+    context = contextvars.copy_context()
+    threads = [threading.Thread(target=read, args=('plain thread',)),
+               threading.Thread(target=context.run, args=(read, 'thread running in a copy of '
+                                                                'the activity\'s context'))]
+    for thread in threads:
+        thread.start()
+    for thread in threads:
+        thread.join()
+    with concurrent.futures.ThreadPoolExecutor(1) as pool:
+        pool.submit(read, 'pool thread').result()
+        pool.submit(contextvars.copy_context().run, read,
+                    'pool thread running in a copied context').result()
+    return results
+
+
 def run_history(case, rng):
     violations = []
     stats = {'histories': 1, 'runs_in_histories': 0, 'nested_runs': 0, 'failing_runs': 0,
@@ -85,11 +113,17 @@ def run_history(case, rng):
         log = []
         raised = []
         nested_log = []
+        # threads started *by an activity* (plain, with a copy of the activity's contextvars
+        # context as asyncio.to_thread does, from a pool) are foreign threads as well
+        foreign = rng.random() < 0.4
+        foreign_reads = []
 
         def root(number, kind=kind, log=log, raised=raised, n_roots=n_roots,
                  nested_log=nested_log):
             async def body():
                 log.append(('begin', number, time.now))
+                if number == 0 and foreign:
+                    foreign_reads.extend(read_from_foreign_threads())
                 await (time + number * 0.5)
                 if kind in ('nested', 'nested-fail') and number == 0:
                     before = time.now
@@ -155,6 +189,12 @@ def run_history(case, rng):
         if not now_raises():
             vio('time-visible-outside-run', 'time.now readable after run #%d (%s)' % (
                 position, kind))
+        stats['foreign_thread_reads'] = stats.get('foreign_thread_reads', 0) + len(foreign_reads)
+        for how, value in foreign_reads:
+            if value != 'RuntimeError':
+                vio('simulation-visible-to-foreign-thread',
+                    'a %s started by an activity of run #%d read time.now = %r' % (
+                        how, position, value))
         begins = [entry for entry in log if entry[0] == 'begin']
         if [entry[1] for entry in begins] != list(range(n_roots)) and till is None:
             vio('roots-not-in-argument-order', 'roots began in order %s' % (
